@@ -8,9 +8,9 @@ SCRATCH=$(mktemp -d /tmp/vr-mut.XXXXXX)
 mkdir -p "$SCRATCH"
 cp -r /verif/corpus "$SCRATCH/corpus"
 cp /verif/known-findings.txt "$SCRATCH/known-findings.txt"
-if ! git -C /repo diff --quiet; then echo "refusing: /repo has local modifications"; exit 2; fi
+if [ -n "$(git -C /repo status --porcelain)" ]; then echo "refusing: /repo has local modifications or untracked files"; exit 2; fi
 if ! git -C /repo apply "$PATCH"; then echo "patch does not apply"; exit 2; fi
-trap 'git -C /repo checkout -- . ; rm -rf "$SCRATCH"' EXIT
+trap 'git -C /repo checkout -- . ; git -C /repo clean -fdq -- falcon-rust benchmark ; rm -rf "$SCRATCH"' EXIT
 for id in "$@"; do
     start=$(date +%s)
     VERIF_ROOT="$SCRATCH" /verif/check "$id" "$TIER" > "$SCRATCH/$id.out" 2>&1
